@@ -35,6 +35,7 @@ func init() {
 			g(rep, "TRUNCATE-COVERS", func() { ruleTRUNCATECOVERS(p, rep) })
 			g(rep, "QUEUE-UNCONDITIONAL", func() { ruleQUEUEUNCONDITIONAL(p, rep) })
 			g(rep, "FLAG-MONOTONE", func() { ruleFLAGMONOTONE(p, rep) })
+			g(rep, "IO-OWNER", func() { ruleIOOWNER(p, rep) })
 		},
 	})
 	register(&propertyDef{
@@ -152,6 +153,7 @@ func init() {
 			g(rep, "LIFECYCLE", func() { ruleLIFECYCLE(p, rep, "tx-finished") })
 			g(rep, "STICKY", func() { ruleSTICKYAI(p, rep); ruleSTICKYSSA(p, rep) })
 			g(rep, "QUEUE-UNCONDITIONAL", func() { ruleQUEUEUNCONDITIONAL(p, rep) })
+			g(rep, "IO-OWNER", func() { ruleIOOWNER(p, rep) })
 		},
 	})
 	register(&propertyDef{
